@@ -260,6 +260,38 @@ func cmdC13Corr(seed uint64, n int, dir string) {
 			}
 			_, _, again := next()
 			add("SRange", "SRange %s [%s] %v", sb, strings.Join(vis, "; "), again)
+			// directly against Go's own range over the same string
+			var exp []string
+			for i, rn := range s {
+				exp = append(exp, "("+coqValue(g.Int32(int32(i)))+", "+coqValue(g.Int32(rn))+")")
+			}
+			if strings.Join(exp, "; ") != strings.Join(vis, "; ") {
+				var gexp []string
+				for i, rn := range s {
+					gexp = append(gexp, fmt.Sprintf("%d:%d", i, rn))
+				}
+				st.mismatchG("range over string", c13Direct{"for i, r := range s (offset:rune pairs)", fmt.Sprintf("%q", s), strings.Join(gexp, " "), strings.Join(vis, "; ")})
+			}
+			if v.Len() != len(s) {
+				st.mismatchG("len of string", c13Direct{"len(s)", fmt.Sprintf("%q", s), fmt.Sprint(len(s)), fmt.Sprint(v.Len())})
+			}
+			for i := 0; i < l; i++ {
+				var rv g.Value
+				p := caught13(func() { rv, _ = v.Get(g.Int32(int32(i))) })
+				if p || g.VerifTag(rv) != 3 || g.VerifNum(rv) != float64(s[i]) {
+					st.mismatchG("index of string", c13Direct{"s[i]", fmt.Sprintf("%q [%d]", s, i), fmt.Sprintf("uint8 %d", s[i]), fmt.Sprintf("panic=%v tag=%d num=%v", p, g.VerifTag(rv), g.VerifNum(rv))})
+					break
+				}
+			}
+			if l >= 2 {
+				i, j := r.intn(l), 0
+				j = i + r.intn(l-i+1)
+				var rv g.Value
+				p := caught13(func() { rv = v.Slice(i, j) })
+				if p || rv.String() != s[i:j] {
+					st.mismatchG("slice of string", c13Direct{"s[i:j]", fmt.Sprintf("%q [%d:%d]", s, i, j), fmt.Sprintf("%q", s[i:j]), fmt.Sprintf("panic=%v %q", p, rv.String())})
+				}
+			}
 		}
 		{
 			sl := g.VerifConvert(v, 128)
